@@ -133,7 +133,7 @@ def _one(idx: int):
     segs, absolute = _CASES[idx]
     reason = must_refuse(segs, os.path.join(_tree(), "sandbox"))
     fails = []
-    for tool in ("write", "validate", "atomic", "write_changes"):
+    for tool in ("write", "validate", "atomic", "write_changes", "write_dry", "write_normalize_dry"):
         root = _tree()
         sb = os.path.join(root, "sandbox")
         rel = "/".join(segs)
@@ -148,6 +148,10 @@ def _one(idx: int):
                 r = asyncio.run(WriteTool().execute(target_path=path, content=DOC))
             elif tool == "write_changes":
                 r = asyncio.run(WriteTool().execute(target_path=path, changes={"A": 2}))
+            elif tool == "write_dry":  # a preview reads the target too: the same refusal applies
+                r = asyncio.run(WriteTool().execute(target_path=path, content=DOC, corrections_only=True))
+            elif tool == "write_normalize_dry":
+                r = asyncio.run(WriteTool().execute(target_path=path, corrections_only=True))
             elif tool == "validate":
                 r = asyncio.run(ValidateTool().execute(file_path=path, schema="META"))
             else:
@@ -204,8 +208,8 @@ def ob_paths(ctx: Ctx) -> Outcome:
         seen.add(key)
         wits.append(Witness(what=text.split("|", 1)[1][:700], input={"segments": list(_CASES[idx][0]), "absolute": _CASES[idx][1]}, key=key, replay={"runner": "props.C19_b:replay_path", "args": {"depth": depth, "idx": idx}}, confirmed=True))
     extra = dict(
-        bound=f"{n} path strings: up to {depth} directory segments from {DIR_SEGS} + a last segment from {len(FILE_SEGS)} kinds (allowed / disallowed / compound / upper-case extensions, symlink to file, dangling symlink, self-loop symlink, NUL, 300-character name, trailing slash, hidden, '..', trailing space), absolute and relative to the sandbox; tree: sandbox with files, a subdirectory, symlinks to a directory outside / inside / nowhere, to a file outside, dangling, looping; outside directory with secrets; calls: octave_write(content), octave_write(changes), octave_validate(file_path), atomic_write_octave; observed: snapshot of the whole tree before/after, every path passed to open() (audit hook)",
-        evaluations=res["evaluations"] * 4, distinct_nontrivial=res["nontrivial"], rule="a case is one path string through four calls; non-trivial: the property demands refusal", samples=[repr(_CASES[i]) for i in (0, n // 2, n - 1)], failing_paths=len(res["failures"]),
+        bound=f"{n} path strings: up to {depth} directory segments from {DIR_SEGS} + a last segment from {len(FILE_SEGS)} kinds (allowed / disallowed / compound / upper-case extensions, symlink to file, dangling symlink, self-loop symlink, NUL, 300-character name, trailing slash, hidden, '..', trailing space), absolute and relative to the sandbox; tree: sandbox with files, a subdirectory, symlinks to a directory outside / inside / nowhere, to a file outside, dangling, looping; outside directory with secrets; calls: octave_write(content), octave_write(changes), octave_write(content / normalize, corrections_only=True), octave_validate(file_path), atomic_write_octave; observed: snapshot of the whole tree before/after, every path passed to open() (audit hook)",
+        evaluations=res["evaluations"] * 6, distinct_nontrivial=res["nontrivial"], rule="a case is one path string through four calls; non-trivial: the property demands refusal", samples=[repr(_CASES[i]) for i in (0, n // 2, n - 1)], failing_paths=len(res["failures"]),
     )
     if wits:
         return Outcome.refuted("real tools on generated trees", wits, **extra)
@@ -247,6 +251,15 @@ def replay_validator_probe(which: str = ""):
             ok, _ = v(os.path.join(sb, "sub", "new.oct.md"))
             if not ok:
                 bad.append(f"{name} refuses a plain path")
+            if name.startswith("WriteTool"):
+                # whatever arguments the validator has grown: through the tool, in preview mode as well
+                import asyncio as _aio
+
+                for rel in ("dirlink/x.oct.md", "filelink.oct.md", "sub/dirlink/x.oct.md"):
+                    for kw in ({"content": DOC, "corrections_only": True}, {"corrections_only": True}, {"changes": {"A": 2}, "corrections_only": True}):
+                        r = _aio.run(WriteTool().execute(target_path=os.path.join(sb, rel), **kw))
+                        if r.get("status") == "success" or not any(e.get("code") == "E_PATH" for e in r.get("errors", [])):
+                            bad.append(f"octave_write({', '.join(kw)}) on {rel}: status {r.get('status')} {[e.get('code') for e in r.get('errors', [])]} (must be E_PATH)")
             # the same paths given RELATIVE to a working directory inside the sandbox (and one level down)
             here = os.getcwd()
             try:
